@@ -145,6 +145,13 @@ def run_history(chooser, steps):
             if exc is not None:
                 viols.append((f"connect_raise:{env}", f"{where}connect() [{env}] raised "
                               f"{type(exc).__name__}: {exc}"))
+            elif env != "ok" and (ret is True or (obj.port is not None and obj.err is None)):
+                # "unsupported firmware" (and a device that is no EBB, is silent, cannot be
+                # opened or found) is one of the errors: the object must come out blocked -
+                # whatever an earlier connection on the same object found out about its board
+                viols.append((f"connect_accepted:{env}", f"{where}connect() [{env}] returned "
+                              f"{ret!r} and left the object usable (err = {obj.err!r}, port "
+                              f"{'open' if obj.port is not None else 'closed'})"))
             history.append(f"connect()[{env}]={ret!r}")
         # "... and then transmits nothing": bytes handed to the port after the first error was
         # latched, inside the very call that latched it, count as well
